@@ -150,6 +150,28 @@ pub fn run_sched(
     budget: Duration,
     own_clause: fn(&str) -> bool,
 ) {
+    if let Some(req) = crate::report::replay_request("schedx") {
+        let want = req["artefact"]["program"]["program"].as_str().unwrap_or("").to_string();
+        if let Some(p) = progs.iter().find(|p| p.name == want) {
+            let len = req["artefact"]["schedule_len"].as_u64().unwrap_or(0) as usize;
+            let mut choices = vec![0usize; len];
+            if let Some(devs) = req["artefact"]["deviations"].as_array() {
+                for d in devs {
+                    let i = d[0].as_u64().unwrap_or(0) as usize;
+                    if i < len {
+                        choices[i] = d[1].as_u64().unwrap_or(0) as usize;
+                    }
+                }
+            }
+            parking_lot::verif_rt::set_named_level(req["artefact"]["named_level"].as_u64().unwrap_or(named_level));
+            let r = schedx::replay_isolated(p, &choices, req["artefact"]["atomic_batches"].as_bool().unwrap_or(atomic_batches));
+            crate::report::replay_done(r);
+        }
+        return;
+    }
+    if crate::report::replay_active() {
+        return;
+    }
     let deadline = Instant::now() + budget;
     let bound = match std::env::var("RDBCHECK_BOUND").ok().and_then(|s| {
         let mut it = s.split(',').map(|x| x.parse::<usize>().ok());
